@@ -5,11 +5,14 @@
    function goes through, written from its loop structure.  Polled:
      biguint.rs  mul_internal, pow_internal, divmod, factorial, fibonacci,
                  lshift (one bit), dist.rs new_die
-   Not polled (the loop body contains no test_int):
-     date.rs     Date::add / Date::sub (n days: for _ in 0..n { next() }),
-                 diff_months (year-by-year loops)
-     biguint.rs  lshift_n (while rhs >= 64 { v.insert(0, 0) })
-     dist.rs     Dist::bop (for each pair of outcomes, linear search)
+   Polled since the repairs 30274a2 / a55ff29 / f8353e2 (the skeletons of the
+   loops as they were are kept with the suffix _old):
+     date.rs     Date::add / Date::sub (for _ in 0..n { test_int; next() }),
+                 diff_months (test_int in each of its four step loops)
+     biguint.rs  lshift_n (while rhs >= 64 { test_int; v.insert(0, 0) })
+     dist.rs     Dist::bop (test_int once per pair of outcomes, then a
+                 numeric operation and a linear search)
+   Not polled:
      parser.rs   the whole parser takes no Interrupt; juxtaposition is tried
                  twice per level (parse_mixed_fraction, then parse_apply_cont)
    Work per iteration is an upper bound (e.g. add_assign_internal touches at
@@ -99,24 +102,48 @@ Definition fibonacci_trace (n l : N) : trace :=
 Definition die1_trace (faces : N) : trace := repeat_trace (N.to_nat faces) [Poll; Work 1].
 
 (* ------------------------------------------------------------------ *)
-(* loops without a poll *)
+(* loops polled since the repairs *)
 
-(* Date::add / Date::sub with n days *)
-Definition date_days_trace (n : N) : trace := repeat_trace (N.to_nat n) [Work 1].
+(* Date::add / Date::sub with n days (step = 1) or n weeks (step = 7):
+   for _ in 0..n { test_int; step calls of next()/prev() } *)
+Definition date_steps_trace (n step : N) : trace := repeat_trace (N.to_nat n) [Poll; Work step].
+Definition date_days_trace (n : N) : trace := date_steps_trace n 1.
 
-(* lshift_n: rhs / 64 inserts at the front of a vector that has l0, l0+1, ...
-   limbs, then fewer than 64 one-bit shifts *)
+(* diff_months with n months: n / 12 year steps, then n mod 12 month steps *)
+Definition date_months_trace (n : N) : trace :=
+  repeat_trace (N.to_nat (n / 12)) [Poll; Work 1] ++ repeat_trace (N.to_nat (n mod 12)) [Poll; Work 1].
+
+(* lshift_n: rhs / 64 polled inserts at the front of a vector that has
+   l0, l0+1, ... limbs, then fewer than 64 one-bit shifts *)
+Definition lshift_inserts (n : N) : N := if 64 <? n then n / 64 else 0.   (* if rhs > 64 { while rhs >= 64 .. } *)
 Fixpoint inserts_trace (k : nat) (l : N) : trace :=
-  match k with O => [] | S k' => Work l :: inserts_trace k' (l + 1) end.
+  match k with O => [] | S k' => Poll :: Work l :: inserts_trace k' (l + 1) end.
 Definition lshift_n_trace (l0 n : N) : trace :=
-  inserts_trace (N.to_nat (n / 64)) l0
-  ++ repeat_trace (N.to_nat (n mod 64)) (lshift1_trace (l0 + n / 64)).
+  inserts_trace (N.to_nat (lshift_inserts n)) l0
+  ++ repeat_trace (N.to_nat (n - 64 * lshift_inserts n)) (lshift1_trace (l0 + lshift_inserts n)).
 
 (* Dist::bop on distributions with la and lb outcomes: la * lb rounds, each a
-   numeric operation and a linear search among the outcomes found so far
-   (at least one, at most la * lb) *)
+   poll, a numeric operation and a linear search among the outcomes found so
+   far (at most la * lb) *)
 Definition dist_bop_trace (la lb : N) : trace :=
+  repeat_trace (N.to_nat (la * lb)) [Poll; Work 1; Work (la * lb)].
+
+(* ------------------------------------------------------------------ *)
+(* the same loops before the repairs: no poll in the body *)
+
+Definition date_days_trace_old (n : N) : trace := repeat_trace (N.to_nat n) [Work 1].
+
+Fixpoint inserts_trace_old (k : nat) (l : N) : trace :=
+  match k with O => [] | S k' => Work l :: inserts_trace_old k' (l + 1) end.
+Definition lshift_n_trace_old (l0 n : N) : trace :=
+  inserts_trace_old (N.to_nat (lshift_inserts n)) l0
+  ++ repeat_trace (N.to_nat (n - 64 * lshift_inserts n)) (lshift1_trace (l0 + lshift_inserts n)).
+
+Definition dist_bop_trace_old (la lb : N) : trace :=
   repeat_trace (N.to_nat (la * lb)) [Work 1; Work 1].
+
+(* ------------------------------------------------------------------ *)
+(* still without a poll *)
 
 (* the parser on  1 (1 (1 ... (1 : each level parses the rest twice *)
 Fixpoint parse_juxt_cost (depth : nat) : N :=
@@ -157,6 +184,21 @@ Definition factorial_polls_of (n : N) : N := factorial_polls (N.to_nat n) 1 n.
 
 Definition fibonacci_polls_of (n : N) : N := if n <=? 1 then 0 else n - 1.
 
-(* new_die(count, faces): faces polls per single die, count - 1 loop polls *)
+(* Dist::bop: one poll per pair of outcomes *)
+Definition dist_bop_polls (la lb : N) : N := la * lb.
+
+(* new_die(count, faces): faces polls per single die; for count > 1 the loop
+   polls once, builds another die and adds it to the running sum (which has
+   j (faces - 1) + 1 outcomes after j dice) through Dist::bop *)
+Fixpoint die_sum_polls (k : nat) (j faces : N) : N :=
+  match k with
+  | O => 0
+  | S k' => 1 + faces + dist_bop_polls (j * (faces - 1) + 1) faces + die_sum_polls k' (j + 1) faces
+  end.
 Definition new_die_polls_of (count faces : N) : N :=
-  if count <=? 1 then faces else count * faces + (count - 1).
+  if count <=? 1 then faces else faces + die_sum_polls (N.to_nat (count - 1)) 1 faces.
+
+(* the polled date loops and the insert loop of lshift_n *)
+Definition date_days_polls_of (n : N) : N := n.
+Definition date_months_polls_of (n : N) : N := n / 12 + n mod 12.
+Definition lshift_n_insert_polls_of (n : N) : N := lshift_inserts n.
